@@ -100,6 +100,31 @@ def _decode(hexs, limit=1500):
         return hexs[:limit]
 
 
+def _details(lines):
+    """Decode the `#x <name> <hex>` lines that follow a failing oracle line; for a pair of answer dumps
+    keep only the lines in which they differ."""
+    raw = {}
+    for x in lines:
+        if not x.startswith("#x "):
+            break
+        w = x.split()
+        raw[w[1]] = _decode(w[2] if len(w) > 2 else "", 10 ** 7)
+    out = {}
+    if "panic" in raw:
+        out["panic"] = raw["panic"][:600]
+    others = [k for k in raw if k not in ("inc", "panic")]
+    if "inc" in raw and others:
+        a = raw["inc"].split("\n")
+        for k in others:
+            b = raw[k].split("\n")
+            sa, sb = set(a), set(b)
+            out[f"only_incremental(vs {k})"] = [x[:300] for x in a if x not in sb][:12]
+            out[f"only_{k}"] = [x[:300] for x in b if x not in sa][:12]
+            if not out[f"only_incremental(vs {k})"] and not out[f"only_{k}"]:
+                out[f"order_differs({k})"] = True
+    return out
+
+
 def _history(c, upto):
     """The operation lines of case `c` up to line index `upto` (texts decoded, impl lines dropped)."""
     out = []
@@ -124,11 +149,7 @@ def extra(ctx):
                 f = _fields(l)
                 if f.get("fresh") == "1" and f.get("repeat") == "1" and f.get("panic") == "0":
                     continue
-                detail = {}
-                for x in c.lines[i + 1: i + 3]:
-                    if x.startswith("#x "):
-                        w = x.split()
-                        detail[w[1]] = _decode(w[2])
+                detail = _details(c.lines[i + 1: i + 4])
                 which = ("panic" if f.get("panic") != "0" else
                          "answer differs from a fresh database" if f.get("fresh") != "1" else
                          "repeated query returned a different answer")
@@ -144,11 +165,7 @@ def extra(ctx):
                 bad_key = f.get("key_order") != "1"
                 if bad_same:
                     proj["differs_from_fresh_same_ids"] += 1
-                    detail = {}
-                    for x in c.lines[i + 1: i + 5]:
-                        if x.startswith("#x "):
-                            w = x.split()
-                            detail[w[1]] = _decode(w[2])
+                    detail = _details(c.lines[i + 1: i + 6])
                     fails.append({"case": c.n, "seed": ctx["seed"], "tier": ctx["tier"], "layer": "Project",
                                   "what": "panic / repeat / answer differs from a fresh project with the same id order",
                                   "query": l[3:], "history": _history(c, i), "answers": detail})
@@ -195,7 +212,8 @@ def replay(obj):
     for d in r["oracle_failures"]:
         print(f"case {d['case']} [{d['layer']}] {d['what']}: {d['query']}")
         for k, v in d.get("answers", {}).items():
-            print(f"--- {k}\n{v}")
+            print(f"--- {k}")
+            print(v if isinstance(v, (str, bool)) else "\n".join(v))
     for k in r["known"]:
         print("KNOWN-FINDING: property=C13", k)
     bad = bool(r["disagreements"] or r["oracle_failures"] or r["failures"])
